@@ -609,6 +609,49 @@ func checkDecoderPanicsAndLoops(p *core.Program, r *core.Report) {
 	}
 	r.Analysed["decoder_single_value_assertions"] = nAssert
 
+	// encoding/binary.Write(w, order, data) panics (reflection on a nil interface) when data is nil. Where data is an
+	// `interface{}` that comes from the caller (JSON `null` in a REST build request ends up here), it must be
+	// tested against nil first.
+	nBW := 0
+	for f := range reach {
+		if f.Blocks == nil || !core.IsRepo(f) {
+			continue
+		}
+		for _, c := range core.CallsTo(f, "encoding/binary.Write") {
+			data := core.Arg(c, 2)
+			var origin ssa.Value
+			fromCaller := core.DependsOn(data, func(v ssa.Value) bool {
+				par, ok := v.(*ssa.Parameter)
+				if !ok {
+					return false
+				}
+				t := par.Type().Underlying()
+				if sl, isSl := t.(*types.Slice); isSl {
+					t = sl.Elem().Underlying()
+				}
+				it, isI := t.(*types.Interface)
+				if isI && it.Empty() {
+					origin = par
+					return true
+				}
+				return false
+			})
+			if _, isMI := data.(*ssa.MakeInterface); isMI || !fromCaller {
+				continue
+			}
+			nBW++
+			okNil := false
+			for _, cd := range core.DominatingConds(c.Block()) {
+				if x, isNil, isCmp := core.NilCmp(cd); isCmp && !isNil && (x == data || core.SameLoad(x, data)) {
+					okNil = true
+				}
+			}
+			r.Check(okNil, "reflect-encode-nil/"+fname(f), "an interface{} handed in by the caller (it may hold JSON null from a REST build request) is written with encoding/binary only after a non-nil test: binary.Write panics on a nil interface", p.Pos(c.Pos()), "", "binary.Write on "+valStr(data)+" (from parameter "+origin.Name()+") without a nil test")
+		}
+	}
+	r.Count("binary.Write on caller-supplied interface values in decoder-reachable code", nBW)
+	r.Min("binary.Write on caller-supplied interface values in decoder-reachable code", 1)
+
 	// inventory: unchecked type assertions on registry-created values
 	nTA := 0
 	for _, fn := range p.RepoFuncs() {
